@@ -196,6 +196,9 @@ pub struct CodegenContext {
     test_elements: Vec<TestElement>,
 
     source_map: SourceMap,
+
+    /// The files that are being imported right now (innermost last), to detect a file that imports itself
+    import_stack: Vec<PathBuf>,
 }
 
 #[derive(Debug, PartialEq, Eq, Hash)]
@@ -241,6 +244,7 @@ impl CodegenContext {
             next_macro_scope_id: 0,
             test_elements: vec![],
             source_map: SourceMap::default(),
+            import_stack: vec![],
         }
     }
 
@@ -733,6 +737,17 @@ impl CodegenContext {
             } => {
                 if let Some(imported_file) = self.tree.try_get_file(resolved_path) {
                     let imported_file_tokens = imported_file.tokens.clone();
+                    if self.import_stack.contains(resolved_path)
+                        || resolved_path == &self.tree.main_file
+                    {
+                        return Err(Diagnostic::error()
+                            .with_message(format!(
+                                "cyclic import of '{}'",
+                                resolved_path.to_string_lossy()
+                            ))
+                            .with_labels(vec![filename.span().to_label()])
+                            .into());
+                    }
 
                     // Make the filename a definition by itself, allowing the user to follow the definition
                     let def = self
@@ -749,13 +764,16 @@ impl CodegenContext {
                         span: filename.span(),
                     });
 
-                    self.with_scope(import_scope, block.as_ref(), |s| {
+                    self.import_stack.push(resolved_path.clone());
+                    let result = self.with_scope(import_scope, block.as_ref(), |s| {
                         if let Some(block) = block {
                             s.emit_tokens(&block.inner)?;
                         }
 
                         s.emit_tokens(&imported_file_tokens)
-                    })?;
+                    });
+                    self.import_stack.pop();
+                    result?;
 
                     if let Some(import_nx) =
                         self.symbols.try_index(self.current_scope_nx, import_scope)
